@@ -154,6 +154,32 @@ def run_world(case, ctx):
 			full = W.closest_list(qi, min(N + 1, nref))
 			if any(W.dbits[qi][a] == W.dbits[qi][b] for a, b in zip(full, full[1:])):
 				tie = True
+		# the same list as the JSON and CSV outputs show it
+		import io, csv as _csv
+		from gambit.results import JSONResultsExporter, CSVResultsExporter
+		try:
+			jb, cb = io.StringIO(), io.StringIO()
+			JSONResultsExporter().export(jb, res)
+			CSVResultsExporter().export(cb, res)
+			jdata = json.loads(jb.getvalue())
+			rows = list(_csv.reader(io.StringIO(cb.getvalue(), newline='')))
+		except Exception as e:
+			raise Violation('exception', f'export of the results raised {type(e).__name__}: {e}', case)
+		col = rows[0].index('closest.description')
+		for qi, item in enumerate(jdata['items']):
+			exp = W.closest_list(qi, N)
+			got = [keys.index(m['genome']['key']) for m in item['closest_genomes']]
+			if got != exp:
+				raise Violation('closest_order', f'query {qi}: JSON closest_genomes {got} != expected {exp}', case)
+			for m, j in zip(item['closest_genomes'], exp):
+				mt = W.forest.match(W.w['genomes'][j]['taxon'], W.dist(qi, j))
+				gk = None if m.get('matched_taxon') is None else m['matched_taxon'].get('key')
+				if float(m['distance']) != W.dist(qi, j) or gk != (None if mt is None else f'world/t{mt}'):
+					raise Violation('json_entry', f'query {qi} genome {j}: JSON entry has distance {m["distance"]!r}, matched taxon {gk}; expected '
+					                f'{W.dist(qi, j)!r}, {None if mt is None else f"world/t{mt}"}', case)
+			if exp and rows[1 + qi][col] != item['closest_genomes'][0]['genome']['description']:
+				raise Violation('csv_json_disagree', f'query {qi}: CSV closest.description {rows[1 + qi][col]!r} != JSON closest_genomes[0] '
+				                f'{item["closest_genomes"][0]["genome"]["description"]!r}', case)
 	finally:
 		try:
 			db.signatures.close(); db.session.close(); db.session.get_bind().dispose()
@@ -195,6 +221,13 @@ def run_subproc(case, ctx):
 				exp = W.closest_list(qi, 10)
 				if got != exp:
 					raise Violation('closest_order', f'query {qi}: JSON closest_genomes {got} != expected {exp} (cpu features disabled: {cpu}, -c {cores})', case)
+				for m, j in zip(item['closest_genomes'], exp):
+					# every listed entry carries its exact distance and the taxon that distance alone assigns (reportable or not)
+					mt = W.forest.match(W.w['genomes'][j]['taxon'], W.dist(qi, j))
+					gk = None if m.get('matched_taxon') is None else m['matched_taxon'].get('key')
+					if float(m['distance']) != W.dist(qi, j) or gk != (None if mt is None else f'world/t{mt}'):
+						raise Violation('json_entry', f'query {qi} genome {j}: JSON entry has distance {m["distance"]!r}, matched taxon {gk}; expected '
+						                f'{W.dist(qi, j)!r}, {None if mt is None else f"world/t{mt}"} (cpu: {cpu}, -c {cores})', case)
 				if rows[1 + qi][col] != item['closest_genomes'][0]['genome']['description']:
 					raise Violation('csv_json_disagree', f'query {qi}: CSV closest.description {rows[1 + qi][col]!r} != JSON closest_genomes[0] '
 					                f'{item["closest_genomes"][0]["genome"]["description"]!r} (cpu: {cpu}, -c {cores})', case)
